@@ -130,7 +130,9 @@ class Command:
         Returns:
             set[RegRef]: set of subsystems the command depends on
         """
-        deps = self.op.measurement_deps | set(self.reg)
+        # built element by element: the hash of a RegRef changes when its subsystem is deleted,
+        # so measurement_deps (created earlier) may hold the same RegRef under a stale hash
+        deps = set(list(self.op.measurement_deps) + list(self.reg))
         return deps
 
 
